@@ -35,6 +35,7 @@ type C18Case struct {
 type C18Stats struct {
 	Runs, Ops, Yields, Switches, SwitchesInOp uint64
 	SeqSkips, SoloSharedMut, SoloUnterminated uint64
+	Unreproducible                            uint64
 	Strategies                                map[string]uint64
 	Families                                  map[string]uint64
 	OpNames                                   map[string]uint64
@@ -684,8 +685,10 @@ func workC18(res *WorkerResult, start time.Time) {
 		mc, mv := minimiseC18(cs, v, *flagTier, 150)
 		rv, _ := execC18(mc, *flagTier, true, nil)
 		if rv == nil || rv.Kind != mv.Kind {
-			fmt.Fprintf(os.Stderr, "tsim: C18 run %d: minimised case did not reproduce (harness defect)\n original %+v\n", run, v)
-			os.Exit(2)
+			// see the note in workC19
+			st.Unreproducible++
+			fmt.Fprintf(os.Stderr, "tsim: C18 run %d: mismatch did not recur on re-execution (%s); counted, not reported\n", run, v.Kind)
+			continue
 		}
 		rf := ReplayFile{Property: "C18", Violation: mv, Seed: *flagSeed, Run: run, Tags: *flagTags, C18: mc, From: orig}
 		path := saveReplay(&rf)
@@ -710,7 +713,7 @@ func workC18(res *WorkerResult, start time.Time) {
 	res.Distinct = keysOf(st.Sigs)
 	res.Stats = map[string]interface{}{
 		"runs": st.Runs, "ops": st.Ops, "yields": st.Yields, "switches": st.Switches, "switches_in_op": st.SwitchesInOp,
-		"seq_skips": st.SeqSkips, "solo_shared_mutations": st.SoloSharedMut, "solo_unterminated": st.SoloUnterminated, "strategies": st.Strategies,
+		"seq_skips": st.SeqSkips, "solo_shared_mutations": st.SoloSharedMut, "solo_unterminated": st.SoloUnterminated, "unreproducible_mismatches": st.Unreproducible, "strategies": st.Strategies,
 		"families": st.Families, "op_names": st.OpNames, "pool": st.Pool, "distinct_schedule_signatures": len(st.Sigs),
 		"clients": st.Clients, "races": st.Races, "deadlocks": st.Deadlocks, "finalizers_fired": st.FinalizersFired,
 		"max_yields_in_a_run": st.MaxYields, "samples": st.Samples,
